@@ -48,21 +48,28 @@ pub fn run_once(case: &Value, variant: u64) -> Value {
     if variant % 4 == 2 {
         eng = eng.clone();
     }
+    // an engine that has scanned nothing yet: "same rules, same event" must give the same outcome on it
+    let pristine = eng.clone();
     let mut outs = vec![];
     for ev in case["events"].as_array().cloned().unwrap_or_default() {
         match crate::event::event_from_json(&ev) {
             Ok(ev) => {
-                if variant % 4 == 3 {
+                let a = if variant % 4 == 3 {
                     // a clone taken after earlier scans (cache filled) must answer like the original
                     let mut e2 = eng.clone();
                     let a = scenario::scan_outcome(&mut e2, &ev);
                     let b = scenario::scan_outcome(&mut eng, &ev);
-                    outs.push(strip(&a));
                     if strip(&a) != strip(&b) {
                         outs.push(json!({ "clone-differs": [strip(&a), strip(&b)] }));
                     }
+                    a
                 } else {
-                    outs.push(strip(&scenario::scan_outcome(&mut eng, &ev)))
+                    scenario::scan_outcome(&mut eng, &ev)
+                };
+                outs.push(strip(&a));
+                let f = scenario::scan_outcome(&mut pristine.clone(), &ev);
+                if strip(&a) != strip(&f) {
+                    outs.push(json!({ "fresh-engine-differs": [strip(&a), strip(&f)] }));
                 }
             }
             Err(e) => outs.push(json!({ "badevent": e })),
@@ -80,7 +87,16 @@ pub fn exec(case: &Value) -> Value {
     };
     let n = case["instances"].as_u64().unwrap_or(8);
     for k in 0..n {
-        add(run_once(case, k), &mut outs);
+        let o = run_once(case, k);
+        // a used engine, its clone or a fresh engine answered differently: that is a second observation
+        if let Some(scans) = o["result"]["scans"].as_array() {
+            for e in scans {
+                if e.get("fresh-engine-differs").is_some() || e.get("clone-differs").is_some() {
+                    add(json!({ "differs": e }), &mut outs);
+                }
+            }
+        }
+        add(o, &mut outs);
     }
     let threads = case["threads"].as_u64().unwrap_or(0);
     if threads > 0 {
